@@ -64,6 +64,10 @@ def run(repo, res, tier):
             f_ = Finding(fd.kind, fd.module + ".py", fd.func, fd.node, fd.msg, getattr(fd.node, "lineno", None))
             f_.sig = ",".join(sorted(re.findall(r"D\([^)]*\)", fd.msg)))
             res.add(f_)
+        if r.get("undecided"):
+            u = f"DIM-UNDECIDED {r['entry']}/{r.get('field', '-')}: a construct outside the typed fragment ({r['undecided'][:90]}); the typed remainder was judged, the return dimension is not claimed"
+            if u not in res.undecided:
+                res.undecided.append(u)
         if r["error"]:
             errors.append(f"{r['entry']}/{r.get('field', '-')}: {r['error']}")
     for r in results:
